@@ -53,7 +53,15 @@ Input classes beyond the random histories
                  identities) and other operations that may hand back the
                  source's buffers, followed by item assignments; every live
                  relative must keep its primary data and coherent derived
-                 data (seeded change C11-r5-2).
+                 data (seeded change C11-r5-2).  Iteration (list / for / zip /
+                 unpacking) is such an operation, in both directions: items
+                 edited -> parent judged, parent edited -> items judged
+                 (seeded change C11-r6-2).
+  query operands tangent-vector queries with a SECOND operand at other base
+                 points (angle, isometry_to, both ways: the write watch judges
+                 every argument) and point_along with exactly-zero, negative
+                 and linspace(0, L, k) distances (seeded changes C11-r6-1,
+                 C11-r6-3).
 """
 import copy
 import os
@@ -600,7 +608,8 @@ OPS = ["copy", "deepcopy", "class-copy", "apply", "apply-composite", "apply-pair
 # further operations, driven by the targeted workloads (not in the random draw
 # of wl_history, whose case stream stays what it was)
 EXTRA_OPS = ["flatten-unit", "flatten-aux", "query-normalising", "apply-given", "setitem-unit",
-             "apply-identity", "same-astype", "same-reshape", "full-index"]
+             "apply-identity", "same-astype", "same-reshape", "full-index", "iterate",
+             "iterate-siblings", "setitem-all"]
 IDENTITIES = ["module-identity", "rep-empty-word", "rotation-by-0", "A@A.inv", "composite-identity",
               "integer-identity", "matmul-module-identity"]
 
@@ -875,14 +884,63 @@ def do_queries(rng, obj, kind):
         elif kind == "H.TangentVector":
             obj.normalized()
             obj.origin_to()
-            obj.point_along(0.3)
+            obj.point_along(distance_class(q, tuple(obj.shape)))
             obj.angle(obj.normalized())
             obj.isometry_to(obj)
+            other = other_tangent(obj)
+            if other is not None:
+                # the second operand of a query is an object the query must not
+                # move either (the write watch snapshots every argument)
+                obj.angle(other)
+                other.angle(obj)
+                if q >= 2:
+                    (obj.isometry_to if q % 2 else other.isometry_to)(other if q % 2 else obj)
             if np.all(np.asarray(obj.proj_data)[..., 0] != 0):
                 # (affine coordinates of the vector row need a non-zero time
                 # coordinate: exact special-position vectors may lie in t = 0)
                 obj.coords("klein")
             H.Point(obj.point).hyperboloid_coords()
+
+
+def distance_class(q, shape):
+    """distances for TangentVector.point_along: positive, EXACTLY zero,
+    negative, and a ray sampled from its base point (np.linspace(0, L, k): the
+    first distance is exactly 0.0).  sinh(0) == 0 and sinh(r) < 0 are where an
+    in-place rescaling of the stored frame by (cosh r, sinh r) stops being a
+    positive rescaling (seeded change C11-r6-3)."""
+    q = q % 4
+    if q == 0:
+        return 0.3
+    if q == 1:
+        return 0.0
+    if q == 2:
+        return -0.4
+    size = int(np.prod(shape, dtype=int)) if shape else 1
+    d = np.linspace(0.0, 1.0, max(size, 2))[:size].reshape(shape)
+    return d if shape else float(d)
+
+
+def other_tangent(obj):
+    """a tangent vector at OTHER base points (the image of obj's stored primary
+    data under a fixed boost, numpy only; no random numbers are consumed), as
+    second operand of two-operand queries: with a common base point the
+    re-projection of the operand's vector is invisible (seeded change
+    C11-r6-1: angle() rewrites other's stored projected vector in place)."""
+    from geometry_tools import hyperbolic as H
+    pd = np.asarray(obj.proj_data)
+    if obj in _not_comparable or pd.dtype.kind not in "iuf" or not pd.size:
+        return None
+    pd = pd.astype(float)
+    with np.errstate(all="ignore"):
+        if not np.all(np.isfinite(pd)) or \
+                not np.all(rh.kind(pd[..., 0, :], margin=1e-6) == "interior"):
+            return None
+    B = rh.boost(pd.shape[-1] - 1, 1, 0.6)
+    if pd.shape[-1] > 2:
+        B = B @ rh.boost(pd.shape[-1] - 1, 2, -0.35)
+    new = H.TangentVector(pd @ B.T)
+    inherit(new, obj)
+    return new
 
 
 NORMALISING = {
@@ -910,7 +968,7 @@ def normalising_query(obj, kind, which):
         elif name == "isometry_to":
             obj.isometry_to(obj)
         elif name == "point_along":
-            obj.point_along(0.3)
+            obj.point_along(distance_class(which // len(names), tuple(obj.shape)))
         elif name.startswith("coords:"):
             obj.coords(name[7:])
         elif name == "normalized+angle":
@@ -1044,6 +1102,55 @@ def apply_step(run, rng, op, obj, model, step):
         else:
             new = obj[...] if step % 2 else obj[(slice(None),) * len(shape)] if shape else obj[...]
         return new, copy.copy(model), "ok"
+    if op in ("iterate", "iterate-siblings"):
+        # items obtained by ITERATION over the first composite axis are objects
+        # of their own, like obj[i] (seeded change C11-r6-2: an __iter__ that
+        # hands out numpy views of the parent).  "iterate": the history goes on
+        # with one item, the parent stays among the relatives; "-siblings": it
+        # goes on with the parent, every item joins the relatives
+        if not shape:
+            return obj, model, "skip:unit object"
+        base = _state.get("ident")
+        mode = (int(rng.integers(0, 4)) if base is None else base) + step
+        if mode % 4 == 0:
+            items = list(obj)
+        elif mode % 4 == 1:
+            items = [x for x in obj]
+        elif mode % 4 == 2:
+            items = [x for x, _ in zip(obj, range(shape[0]))]
+        else:
+            first, *rest = obj
+            items = [first] + rest
+        if not hist.require(len(items) == shape[0] and all(type(x) is cls for x in items),
+                            "history/iteration/items/%s" % kind,
+                            "iterating a %s of composite shape %r gives %d items of types %s"
+                            % (kind, shape, len(items), sorted({type(x).__name__ for x in items})),
+                            case):
+            return obj, model, "violation"
+        models = []
+        for i, x in enumerate(items):
+            inherit(x, obj)
+            mi = copy.copy(model)
+            mi.prim = np.array(model.prim[i], copy=True)
+            models.append(mi)
+        if op == "iterate":
+            i = int(rng.integers(0, shape[0]))
+            _state["extra_relatives"] = [(x, m) for k, (x, m) in enumerate(zip(items, models))
+                                         if k != i][:2]
+            return items[i], models[i], "ok"
+        _state["extra_relatives"] = list(zip(items, models))[:3]
+        return obj, model, "ok"
+    if op == "setitem-all":
+        # obj[...] = value: every unit replaced (works on a unit object too)
+        raw = draw_value(rng, kind, n, shape, nv=model.prim.shape[-2] if "Polygon" in kind else None)
+        val_prim = G.primary(kind, raw)
+        value = G.build(kind, raw) if rng.random() < 0.5 else np.array(val_prim, copy=True)
+        if np.asarray(obj.proj_data).dtype != np.asarray(val_prim).dtype:
+            val_prim = val_prim.astype(np.asarray(obj.proj_data).dtype)
+        obj[...] = value
+        m2 = copy.copy(model)
+        m2.prim = np.array(val_prim, copy=True)
+        return obj, m2, "ok"
     if op == "apply-given":
         # one given isometry (column convention), e.g. the exact boost that moves
         # an endpoint / vertex / base point of every unit onto the origin
@@ -1279,6 +1386,7 @@ def wl_history(run, rng, idx):
                 relatives = []          # shallow copies share arrays by definition
             else:
                 relatives.append((prev, prev_model))
+        relatives.extend(_state.pop("extra_relatives", None) or [])
         if not explicit_check(run, obj, model, step, op):
             break
         relatives_check(run, relatives[-4:], step, op)
@@ -1349,6 +1457,7 @@ def run_history(run, rng, kind, n, shape, route, ops, lift=None, note=()):
             done.append(op)
             if obj is not prev:
                 relatives = [] if op == "copy" else relatives + [(prev, prev_model)]
+            relatives = relatives + (_state.pop("extra_relatives", None) or [])
             if not explicit_check(run, obj, model, step, op):
                 break
             relatives_check(run, relatives[-(_state.get("keep_relatives") or 3):], step, op)
@@ -1497,8 +1606,9 @@ def wl_setitem_unit(run, rng, idx):
         _state["history"] = None
 
 
-ID_OPS = ["apply-identity", "same-astype", "same-reshape", "full-index", "apply-identity"]
-ID_EDITS = ["setitem", "setitem-raw", "setitem-unit"]
+ID_OPS = ["apply-identity", "iterate", "same-astype", "iterate-siblings", "same-reshape",
+          "full-index", "apply-identity"]
+ID_EDITS = ["setitem", "setitem-all", "setitem-raw", "setitem-unit"]
 ID_PRE = ["class-copy", "apply", "reshape", "stack", "deepcopy", "index", "astype64", "flatten"]
 
 
@@ -1663,6 +1773,17 @@ def wl_queries(run, rng, idx):
             X.point_along(d)
             X.angle(X.normalized())
             X.isometry_to(X.normalized())
+            # exactly-zero / negative / sampled-ray distances, then further
+            # queries on the same object (seeded change C11-r6-3)
+            X.point_along(distance_class(idx // len(kinds), tuple(shape)))
+            X.point_along(distance_class(idx // len(kinds) + 1, tuple(shape)))
+            X.origin_to()
+            # a second operand at other base points, both ways (C11-r6-1)
+            Y = G.build(kind, G.draw(rng, kind, n, shape))
+            X.angle(Y)
+            Y.angle(X)
+            X.isometry_to(Y)
+            Y.isometry_to(X)
         elif kind == "H.Polygon":
             X.get_edges()
             X.get_vertices()
